@@ -58,7 +58,7 @@ PROPS["C02"] = {
                   "comparing command trace, result class and final keyspace.",
     "level_note": "Trusted: Lean kernel; MiniRedis as a description of Redis' replies; float text codec (hypothesis RoundTrips); "
                   "decoding of compact encodings is a parameter (C12); the model-code tie is sampled.",
-    "rule": "r: entries of every type but zipmap and module (string, list, set, zset text/binary, hash, list/hash/zset ziplist, intset, quicklist, stream, lua) built by an own DUMP "
+    "rule": "r: entries of every type but module (string, list, set, zset text/binary, hash, zipmap, list/hash/zset ziplist, intset, quicklist, stream, lua) built by an own DUMP "
             "serializer x threshold {0, len-1, len, 1, huge} x key_exists x TargetReplace x 19 version strings x target rejecting types x "
             "shift x hash-tag replacement x ucloud x pre-existing key of each type; collection sizes 0,1,2..7,99,100,101,200,201; "
             "expired/unexpired; chunked hashes as entry sequences with server-clock gaps; malformed payloads (truncated bodies, damaged "
@@ -77,5 +77,5 @@ PROPS["C02"] = {
                     "Send never fails (live connection); key_exists in {none, rewrite, ignore}",
                     "empty collections and NaN scores do not occur in a source RDB",
                     "compact encodings: theorems take the expansion as a parameter (Params.expand, hypothesis Params.WF); the driver instantiates "
-                    "ziplists (types 10, 12, 13, quicklist nodes) from C12's RdbDecode model and the intset walk of utils.go; zipmap (type 9, D22) is not exercised"],
+                    "ziplists (types 10, 12, 13, quicklist nodes) from C12's RdbDecode model and the intset walk of utils.go; zipmap (type 9) through the repaired readers (D22): count byte, CountZipmapItems, ReadZipmapItem"],
 }
